@@ -37,6 +37,8 @@ structure S where
   staleHolds : Bool := false       -- a stale Release took the token
   bad : Bool := false              -- ghost: an event was dispatched to another owner's callbacks, or a stale call took the token of a later owner
   fdOpen : Bool := false           -- the CURRENT owner's descriptor (operator.FD) is open; earlier owners' descriptors are other kernel objects
+  hupq : List Nat := []            -- hang-ups recorded through this slot (`appendHup`) that the hang-up goroutine has not delivered yet,
+                                   -- each tagged with the owner it was recorded for (oldest first)
 deriving Repr, DecidableEq
 
 inductive Act where
@@ -55,6 +57,11 @@ inductive Act where
                                              -- `guarded` = the IsActive check of fix 1c26766 is present
   | staleDone
   | closeFd (g : Nat)     -- the close finalizer of the owner of generation g reaches `netFD.Close()` (after `operator.Free()` returned)
+  | queueHup              -- handler, token held: `appendHup` – `p.hups = append(p.hups, operator.OnHup)` (then detach, done: own actions)
+  | runHup (g : Nat) (late : Bool)  -- the goroutine started by `onhups()` reaches the entry recorded for owner g – at any later time:
+                                    -- the batch may have ended, the owner may have closed, the slot may have a new owner.
+                                    -- `late = false`: the entry IS the func copied by `appendHup` (the code; tie `hup_queue_captures_callback`);
+                                    -- `late = true`: the entry is the slot and `OnHup` is read only now (kept as a witness)
 deriving Repr, DecidableEq
 
 def step (s : S) : Act → Option S
@@ -106,6 +113,15 @@ def step (s : S) : Act → Option S
     if g = s.gen ∧ s.pc = .gone ∧ s.fdOpen then some { s with fdOpen := false }
     else if g < s.gen then some s
     else none
+  | .queueHup =>
+    -- the func value installed in the slot NOW is copied; the poller holds the token, so the owner cannot have changed since `do()`
+    if s.pollerHolds then some { s with hupq := s.hupq ++ [s.gen], bad := s.bad || (s.cbGen != some s.gen) } else none
+  | .runHup g late =>
+    if s.hupq.contains g then
+      -- captured: owner g's own `onHup` runs (it ignores the call if its user closed it meanwhile) – no word of the slot is read.
+      -- late: whatever `OnHup` the slot holds at this moment is called: nil after a reset (skipped), a later owner's after reuse
+      some { s with hupq := s.hupq.erase g, bad := s.bad || (late && s.cbGen.isSome && s.cbGen != some g) }
+    else none
 
 def init : S := {}
 
@@ -114,9 +130,10 @@ def run (s : S) : List Act → Option S
   | [] => some s
   | a :: rest => match step s a with | none => none | some s' => run s' rest
 
-/-- the fix is in place: every stale Release goes through the IsActive guard -/
+/-- the code as it is: every stale Release goes through the IsActive guard (fix 1c26766), the hang-up queue holds the copied funcs -/
 def guardedAct : Act → Bool
   | .staleRelease _ g => g
+  | .runHup _ late => !late
   | _ => true
 
 end Netpoll.Poll.OpCache
